@@ -191,6 +191,11 @@ impl<F: FixedChannelRegion> RegionHandler for FixedChannelPlan<F> {
         F::datarates().get(dr as usize)?.as_ref()
     }
 
+    fn uplink_datarate_valid(&self, dr: u8) -> bool {
+        // DR8..DR13 are the 500 kHz downlink data rates of US915 and AU915
+        dr < 8 && self.get_datarate(dr).is_some()
+    }
+
     fn select_tx_channel<RNG: RngCore>(
         &mut self,
         rng: &mut RNG,
